@@ -156,3 +156,29 @@ def extract_fn_text(path, scopes, name):
     i = find_fn(lines, name, s, e)
     a, b = fn_extent(lines, i)
     return "\n".join(lines[a:b + 1])
+
+
+def extract_closure_body(path, marker):
+    """Textual extraction of the body of a closure: from the line containing `marker` (which ends with `{`) to the
+    line holding the matching `}`.  Returns (body_lines, first_line_no, last_line_no) -- the lines strictly between."""
+    with open(path) as f:
+        lines = f.read().split("\n")
+    hits = [i for i, l in enumerate(lines) if marker in l]
+    if len(hits) != 1:
+        raise LostAnchor("closure marker %r: %d matches" % (marker, len(hits)))
+    i = hits[0]
+    depth = 0
+    seen = False
+    for j in range(i, len(lines)):
+        s = _strip_strings_and_comments(lines[j])
+        if j == i:
+            s = s[s.index(marker.strip()[-1]) if False else s.rfind("{"):]
+        for ch in s:
+            if ch == "{":
+                depth += 1
+                seen = True
+            elif ch == "}":
+                depth -= 1
+                if seen and depth == 0:
+                    return lines[i + 1:j], i + 2, j
+    raise LostAnchor("unbalanced closure after %r" % marker)
